@@ -1,7 +1,38 @@
 """C02 — only length-consistent, CRC-valid frames are ever accepted."""
+import binascii
+import time
+
 from common import Prop, hexs, unhex, exc_name
 from ref import ref_frame, ref_crc16_xmodem
 import genlib as g
+
+# two independent CRC-16/XMODEM implementations, neither of them nxslib's crcmod: the bitwise loop written from the
+# protocol description (ref.py) and CPython's binascii.crc_hqx (poly 0x1021, MSB first, init given) — checked
+# against each other here; the predicate uses the first on short strings and the second on long ones
+assert binascii.crc_hqx(b"123456789", 0) == 0x31C3 == ref_crc16_xmodem(b"123456789")
+_probe = bytes((i * 73 + 11) & 0xFF for i in range(5000))
+assert binascii.crc_hqx(_probe, 0) == ref_crc16_xmodem(_probe)
+
+
+def crc_ind(d):
+    return ref_crc16_xmodem(d) if len(d) <= 600 else binascii.crc_hqx(bytes(d), 0)
+
+
+def lframe(fid, p):
+    """a valid frame (as ref_frame) of any legal length"""
+    n = len(p) + 6
+    assert n <= 0xFFFF
+    pre = bytes([0x55, n & 0xFF, n >> 8, fid & 0xFF]) + p
+    return pre + crc_ind(pre).to_bytes(2, "big")
+
+
+def refoot(body):
+    """body + the CRC that makes the whole string CRC-consistent"""
+    return body + crc_ind(body).to_bytes(2, "big")
+
+
+# total frame lengths around every power-of-two / buffer-size boundary up to the 16-bit limit; 263 = bulk request for 255 channels
+LONG_LENS = [32, 63, 64, 65, 255, 256, 257, 263, 1023, 1024, 1025, 2047, 2048, 2049, 4095, 4096, 32767, 32768, 65535]
 
 CB_OF = {2: ("cmninfo", lambda n: n == 0), 3: ("chinfo", lambda n: n == 1), 5: ("start", lambda n: n == 1),
          6: ("enable", lambda n: n != 0), 7: ("div", lambda n: n != 0)}
@@ -12,7 +43,7 @@ def accepts(d):
     if len(d) < 4 or d[0] != 0x55 or d[3] > 8:
         return None
     flen = d[1] | d[2] << 8
-    if flen < 6 or flen > len(d) or ref_crc16_xmodem(d[:flen]) != 0:
+    if flen < 6 or flen > len(d) or crc_ind(d[:flen]) != 0:
         return None
     return d[3], d[4:flen - 2]
 
@@ -49,6 +80,30 @@ def wrong_footers(f):
     return [o for o in outs if o != f]
 
 
+def blockwise_footers(f):
+    """long frames whose footer is the CRC of a block-wise routine gone wrong: the last byte of every B-byte block
+    skipped, the first B bytes only, everything but the last block"""
+    body = f[:-2]
+    outs = []
+    for B in (256, 512, 1024, 2048, 4096):
+        if len(body) <= B:
+            continue
+        skipped = b"".join(body[i:i + B - 1] for i in range(0, len(body), B))
+        for part in (skipped, body[:B], body[:len(body) // B * B] if len(body) % B else body[:-B]):
+            outs.append(body + crc_ind(part).to_bytes(2, "big"))
+    return [o for o in outs if o != f]
+
+
+def bulk_request(rng, fid, nch):
+    """a legal bulk enable / divider request for nch channels: flags = BULK (1), chan = 0, one byte per channel"""
+    vals = bytes(rng.randrange(2) for _ in range(nch)) if fid == 6 else rng.randbytes(nch)
+    return lframe(fid, bytes([1, 0]) + vals)
+
+
+def _short(x, n=400):
+    return x if len(x) <= n else f"{x[:n]}... ({len(x)} chars)"
+
+
 class Recorder:
     def __init__(self):
         from nxslib.proto.iparserecv import ParseRecvCb
@@ -79,8 +134,11 @@ class C02(Prop):
     rule = ("byte strings through SerialFrame.frame_decode and ParseRecv.recv_handle (recorded callbacks): valid "
             "frames, near-miss CRCs (stored CRC chosen so the residue is 0x0001/0x0080/0x00ff/0x0100/0x8000/...), "
             "exhaustive sweeps of sof / id / declared length, truncations, extensions, over-long declared lengths "
-            "on CRC-consistent prefixes, all 1-bit and sampled 2-bit / burst corruptions; distinct = distinct "
-            "(op,input); non-trivial = input of >= 4 bytes containing 0x55")
+            "on CRC-consistent prefixes, all 1-bit and sampled 2-bit / burst corruptions; valid and near-valid frames of "
+            "32, 63..65, 255..257, 263, 1023..1025, 2047..2049, 4095, 4096, 32767, 32768, 65535 bytes; block-wise-CRC "
+            "footers; 2-bit flips at distance 32767 (accepted: the bound of the theorems is tight); real-code sweep of "
+            "every 1-bit flip and the 2-bit flips / bursts at the 1 KiB block boundaries of a 2100- and a 4095-byte "
+            "frame; distinct = distinct (op,input); non-trivial = input of >= 4 bytes containing 0x55")
     assumptions = ["crcmod validated against the Lean CRC, not verified",
                    "error-detection theorems are about crc16xmodem of the model; they apply to the code through "
                    "Gen.Crc.params = xmodem (regenerated) and the correspondence"]
@@ -185,13 +243,75 @@ class C02(Prop):
                 for _ in range(400):
                     k = rng.choice([3, 5, 7, 9])
                     yield from self.both(g.flip_bits(f, rng.sample(range(nb), k)), "flip-odd")
+        yield from self.long_cases(rng, T)
         # pure noise, 0x55-rich
         for _ in range(300 if T else 60):
             yield from self.both(g.noise(rng, rng.randrange(0, 24), sof_rich=True), "noise")
 
+    def long_cases(self, rng, T):
+        """valid and near-valid frames of every length class up to the 16-bit limit, through decoder and dispatcher"""
+        for L in LONG_LENS:
+            big = L > 5000
+            n = L - 6
+            if L == 263:
+                f = bulk_request(rng, rng.choice([6, 7]), 255)
+            else:
+                f = lframe(rng.choice([6, 7]), rng.randbytes(n))
+            assert len(f) == L
+            nb = L * 8
+            yield from self.both(f, "long-valid")
+            # one flipped bit (anywhere but the length field), one flipped bit in the last payload byte / first CRC byte
+            p = rng.choice([rng.randrange(0, 8), rng.randrange(24, nb)])
+            yield from self.both(g.flip_bits(f, [p]), "long-flip-1")
+            yield from self.both(f[:-1], "long-truncated")
+            if big and not T:
+                continue
+            # the other ids: the decoder accepts, the dispatcher asserts
+            yield from self.both(lframe(rng.choice([0, 1, 2, 3, 4, 5, 8]), rng.randbytes(n)), "long-valid-other-id")
+            yield from self.both(g.flip_bits(f, [rng.randrange(nb - 24, nb - 8)]), "long-flip-1")
+            yield from self.both(g.near_miss(f, rng.choice(g.NEAR_RESIDUES)), "long-near-miss")
+            a = rng.randrange(24, nb)
+            yield from self.both(g.flip_bits(f, [a, rng.choice([x for x in (a + 1, a - 1, a + 17, a - 1000, rng.randrange(24, nb)) if 24 <= x < nb and x != a])]), "long-flip-2")
+            start = rng.randrange(24, nb - 16)
+            yield from self.both(g.flip_bits(f, [start] + [start + k for k in range(1, 16) if rng.random() < 0.5]), "long-burst")
+            # declared length one more than there is (CRC-consistent over what is there), one less (a CRC-consistent shorter
+            # frame followed by a stray byte: accepted), trailing bytes, leading bytes
+            if L < 0xFFFF:
+                yield from self.both(refoot(g.set_len(f, L + 1)[:-2]), "long-overlong-declared")
+            yield from self.both(refoot(g.set_len(f, L - 1)[:-3]) + b"\x00", "long-shorter-declared")
+            yield from self.both(f + rng.randbytes(rng.randrange(1, 4)), "long-extended")
+            yield from self.both(bytes([rng.choice([0, 0x54, 0xAA])]) + f, "long-leading-byte")
+        # footers of a block-wise CRC routine gone wrong (frames over 256 bytes only)
+        for L in ((300, 1030, 2100, 4110) if not T else (257, 300, 513, 1024, 1025, 1026, 1030, 2049, 2100, 3073, 4095, 4097, 4110, 8200, 20000)):
+            f = lframe(rng.choice([6, 7]), rng.randbytes(L - 6))
+            for bad in blockwise_footers(f):
+                yield from self.both(bad, "wrong-footer-blockwise")
+        # the bound of the error-detection theorems is tight: x has order 32767 modulo the generator, so two flipped bits
+        # 32767 positions apart leave the CRC unchanged.  Up to 4099 bytes such a pair has to hit the start byte, the length
+        # field or the top bit of the id (rejected for those reasons); from 4100 bytes on it fits in id-lsb/payload/CRC: ACCEPTED.
+        f = lframe(6, rng.randbytes(4100 - 6))
+        yield from self.both(g.flip_bits(f, [32, 32 + 32767]), "order-32767-accepted")
+        f = lframe(rng.choice([0, 2, 4, 6]), rng.randbytes(4100 - 6))
+        yield from self.both(g.flip_bits(f, [31, 31 + 32767]), "order-32767-accepted")          # id lsb + last CRC bit
+        for _ in range(12 if T else 3):
+            L = rng.randrange(4101, 9000)
+            f = lframe(rng.choice([6, 7]), rng.randbytes(L - 6))
+            k = rng.randrange(32, L * 8 - 32767)
+            yield from self.both(g.flip_bits(f, [k, k + 32767]), "order-32767-accepted")
+            yield from self.both(g.flip_bits(f, [k, k + 32766]), "order-32766-rejected")
+        for L in (4096, 4097, 4099):
+            f = lframe(7, rng.randbytes(L - 6))
+            for k in sorted({0, rng.randrange(1, 8), 7} | ({24} if L == 4099 else set())):
+                if k + 32767 < L * 8:
+                    d = g.flip_bits(f, [k, k + 32767])
+                    yield f"frame crc {hexs(d)}", "order-32767-crc-blind"                      # the CRC itself is 0 ...
+                    yield from self.both(d, "order-32767-hits-header")                           # ... the header checks reject
+
     def impl(self, line):
         t = line.split(" ")
         d = unhex(t[2])
+        if t[1] == "crc":
+            return f"ok {self.sf._crc16_func(d)}"
         if t[0] == "frame":
             r = self.sf.frame_decode(d)
             if r.err != 0:
@@ -203,20 +323,31 @@ class C02(Prop):
         d = unhex(line.split(" ")[2])
         return len(d) >= 4 and 0x55 in d
 
-    def oracle(self, line, impl_out=None):
+    def oracle(self, line, impl_out=None, sf=None, rec=None):
+        """judge the real code on one line; fresh instances unless the caller passes long-lived ones"""
         t = line.split(" ")
         d = unhex(t[2])
         if t[0] == "frame":
-            from nxslib.proto.serialframe import SerialFrame
-            r = SerialFrame().frame_decode(d)
+            if sf is None:
+                from nxslib.proto.serialframe import SerialFrame
+                sf = SerialFrame()
+            if t[1] == "crc":
+                ok = sf.foot_validate(d)
+                if bool(ok) != (crc_ind(d) == 0):
+                    return {"key": "footer-validate", "what": f"foot_validate over {len(d)} bytes against 'CRC-16/XMODEM residue is 0'",
+                            "expected": repr(crc_ind(d) == 0), "observed": repr(ok)}
+                return None
+            r = sf.frame_decode(d)
             got = None if r.err != 0 else (int(r.fid), r.data)
             exp = accepts(d)
             if got != exp:
-                return {"key": "decoder-accept", "what": "frame_decode accepts/rejects against the acceptance predicate "
+                return {"key": "decoder-accept", "what": f"frame_decode of {len(d)} bytes accepts/rejects against the acceptance predicate "
                         "(0x55, known id, 6 <= declared length <= len, CRC over exactly the declared length, payload between)",
-                        "expected": repr(exp), "observed": f"err={r.err.name} fid={int(r.fid)} data={hexs(r.data)}"}
+                        "expected": _short(repr(exp) if exp is None else f"({exp[0]}, {hexs(exp[1])})"),
+                        "observed": _short(f"err={r.err.name} fid={int(r.fid)} data={hexs(r.data)}")}
             return None
-        rec = Recorder()
+        if rec is None:
+            rec = Recorder()
         out = rec.handle(d)
         i = d.find(b"\x55")
         exp = accepts(d[i:]) if i >= 0 else None
@@ -229,11 +360,96 @@ class C02(Prop):
             else:
                 want = "raised assert"
         if out != want:
-            return {"key": "dispatcher-accept", "what": "recv_handle reacts to a byte string against the acceptance predicate",
-                    "expected": want, "observed": out}
+            return {"key": "dispatcher-accept", "what": f"recv_handle reacts to a byte string of {len(d)} bytes against the acceptance predicate",
+                    "expected": _short(want), "observed": _short(out)}
         return None
 
     def extra_checks(self, rng, tier, ev):
+        return self.history_checks(rng, tier, ev) + self.sweep_long(rng, tier, ev)
+
+    def sweep_long(self, rng, tier, ev):
+        """real code only, judged by the independent CRC: a 2100-byte and a 4095-byte valid frame must be accepted, and
+        EVERY single-bit flip outside the length field, every 2-bit flip within the bytes around each 1 KiB block boundary
+        and the <=16-bit bursts starting there must be rejected (reject_single_double / reject_burst say so for the model;
+        a CRC routine that works block by block has its bugs exactly there).  quick: boundaries first, then single flips in
+        random order until 5 s are spent; thorough: everything."""
+        from nxslib.proto.serialframe import SerialFrame
+        budget = None if tier == "thorough" else float(__import__("os").environ.get("VERIF_C02_SWEEP_S", "5"))
+        t0 = time.time()
+        viol = []
+        done = {"frames": 0, "flip1": 0, "flip2": 0, "burst": 0, "complete": True}
+
+        def judge(w, d, sf, rec, cls):
+            """corrupted d (from valid w): both decoder and dispatcher against the predicate, on long-lived instances; a
+            discrepancy is re-judged on fresh instances to name it a plain or a history-dependent violation"""
+            if cls is not None and accepts(d) is not None:
+                raise AssertionError(f"harness: the independent predicate accepts a {cls} corruption of a {len(w)}-byte frame")
+            for line in (f"frame decode {hexs(d)}", f"recv handle {hexs(d)}"):
+                v = self.oracle(line, sf=sf, rec=rec)
+                if v:
+                    v2 = self.oracle(line)
+                    if v2:
+                        v2["case"] = line
+                        v2["what"] += f" [{cls or 'valid frame'}, sweep over a {len(w)}-byte frame]"
+                        return v2
+                    return {"key": "history-dependent-accept", "case": "sequence (see `sequence`)", "sequence": [hexs(w), hexs(d)],
+                            "what": f"after the same instance had accepted a {len(w)}-byte frame, its {cls} corruption was treated "
+                                    "differently from the acceptance predicate", "expected": v["expected"], "observed": v["observed"]}
+            return None
+
+        plans = []
+        for L in (2100, 4095):
+            w = lframe(rng.choice([6, 7]), rng.randbytes(L - 6))
+            sf, rec = SerialFrame(), Recorder()
+            v = judge(w, w, sf, rec, None)
+            done["frames"] += 1
+            if v:
+                return [v]
+            nb = L * 8
+            bnd = [o for o in (1022, 1023, 1024, 1025, 1026, 2046, 2047, 2048, 2049, 2050, 4093, 4094) if o < L]
+            work = []
+            for o in bnd:
+                lo, hi = o * 8, min(nb, o * 8 + 16)
+                for a in range(lo, min(nb, lo + 8)):
+                    work.append(("flip1", [a]))
+                    for b in range(a + 1, hi):
+                        work.append(("flip2", [a, b]))
+                    # bursts starting at bit a: the full 16 bits, both ends only, and random fillings
+                    span = [a + k for k in range(1, 16) if a + k < nb]
+                    work.append(("burst", [a] + span))
+                    for _ in range(6):
+                        work.append(("burst", [a] + [x for x in span if rng.random() < 0.5]))
+                # 2-bit flips from the boundary byte to far away (another block, the CRC bytes)
+                for _ in range(8):
+                    work.append(("flip2", [rng.randrange(lo, lo + 8), rng.choice([rng.randrange(24, nb), rng.randrange(nb - 16, nb)])]))
+            work = [(c, sorted(set(b))) for c, b in work if len(set(b)) == len(b)]
+            singles = [("flip1", [a]) for a in list(range(0, 8)) + list(range(24, nb))]
+            rng.shuffle(singles)
+            plans.append((w, sf, rec, work, singles))
+        names = {"flip1": "1-bit", "flip2": "2-bit", "burst": "burst<=16"}
+        for stage in (0, 1):         # 0: the block boundaries of both frames, 1: every single-bit flip of both frames
+            for w, sf, rec, work, singles in plans:
+                for cls, bits in (work, singles)[stage]:
+                    if budget is not None and time.time() - t0 > budget:
+                        done["complete"] = False
+                        break
+                    if cls == "flip2" and any(8 <= b < 24 for b in bits):
+                        continue
+                    v = judge(w, g.flip_bits(w, bits), sf, rec, names[cls])
+                    done[cls] += 1
+                    if v:
+                        v["flipped_bits"] = bits
+                        viol.append(v)
+                        break
+                if viol:
+                    break
+            if viol:
+                break
+        done["wall_s"] = round(time.time() - t0, 2)
+        ev["coverage"]["long_frame_sweep"] = done
+        return viol
+
+    def history_checks(self, rng, tier, ev):
         """acceptance must not depend on what the same decoder / dispatcher instance saw before"""
         viol = []
         n = 0
